@@ -109,7 +109,8 @@ class TGen:
         nj = min(self.ch([0, 0, 1, 1, 2, 3]), max(0, self.budget))
         for _ in range(nj):
             jt = self.ch(JOIN_TYPES)
-            s, ts = self.from_item(d, alias_needed=True)
+            # the joined table often has NO alias, so that the next word (USING, CROSS, ON, a clause keyword) follows the table name directly
+            s, ts = self.from_item(d, alias_needed=self.p(0.35))
             t_join += ts
             text += " " + jt + " " + s
             x = self.r.below(100)
@@ -134,6 +135,9 @@ class TGen:
             if ts: self.tags.add("subquery:order-by")
         if self.p(0.2):
             text += " LIMIT " + self.ch(["1", "10 OFFSET 2", "3, 4"])
+        elif d == 0 and " WHERE " not in text and " GROUP BY " not in text and " ORDER BY " not in text and self.p(0.15):
+            # Hive clauses directly after a table reference (possibly without alias)
+            text += " " + self.ch(["SORT BY a", "DISTRIBUTE BY a", "CLUSTER BY a", "SORT BY a DESC", "SORT BY a DISTRIBUTE BY b"]); self.tags.add("hive-clause-after-table")
         return text, t_items + t_from + t_join + t_rest, t_from, t_join
 
     def query(self, d=0, with_ok=True, top=False):
@@ -161,6 +165,8 @@ class TGen:
 def known_case(rng, maxdepth, dotted=True):
     g = TGen(rng, maxdepth, dotted, budget=rng.choice([1, 2, 3, 4, 5, 6, 8, 10, 12]))
     text, t_all, t_from, t_join = g.query(0, top=True)
+    text, style = anfam.recase(rng, text)          # keywords in lower / Capitalised / mixed case
+    g.tags.add("keywords:" + style)
     return {"text": text, "all": t_all, "from": t_from, "join": t_join, "tags": sorted(g.tags)}
 
 
